@@ -268,7 +268,7 @@ double AbstractDiscreteDistribution::getValueCategory(double value) const
     throw Exception("AbstractDiscreteDistribution::getValueCategory out of bounds:" + TextTools::toString(value));
 
   map<double, double>::const_iterator it = distribution_.begin();
-  for (unsigned int i = 1; i < bounds_.size(); i++)
+  for (size_t i = 0; i < bounds_.size(); i++)
   {
     if (value < bounds_[i])
       break;
@@ -286,13 +286,14 @@ size_t AbstractDiscreteDistribution::getCategoryIndex(double value) const
   if (!(intMinMax_->isCorrect(value)))
     throw Exception("AbstractDiscreteDistribution::getValueCategory out of bounds:" + TextTools::toString(value));
 
-  for (unsigned int i = 1; i < bounds_.size(); i++)
+  // bounds_ holds the interior bounds only: class i is [bounds_[i-1], bounds_[i][
+  for (size_t i = 0; i < bounds_.size(); i++)
   {
     if (value < bounds_[i])
       return i;
   }
 
-  throw bounds_.size();
+  return bounds_.size();
 }
 
 /***********************************************************************/
